@@ -62,7 +62,7 @@ def scheme_case(which):
         base["datasets"] = [{"label": "ds1", "group": "g1", "t": t1, "g": [1.0, 2.0, 3.0, 4.0], "layout": "mg", "megacomplex": ["m1"], "dseed": 11,
                              "id0": 0, "weight": None, "scale": None, "mc_scale": None}]
         base["groups"] = {"g1": {"link_clp": False, "residual_function": "variable_projection"}}
-        base["parameters"]["pen.1"] = {"value": 1.1, "vary": False}
+        base["parameters"]["pen.1"] = {"value": 1.1, "vary": False, "non_negative": True}  # fixed AND log-transformed: must survive the roll-back unchanged
         base["penalties"] = [{"source": "a", "source_intervals": [[1.0, 3.0]], "target": "b", "target_intervals": [[2.0, 4.0]], "parameter": "pen.1", "weight": 0.3}]
         base["constraints"] = [{"type": "zero", "target": "b", "interval": [1.0, 1.0]}]
     else:
